@@ -18,6 +18,12 @@ void h_ecb_crypt_tweaked(void)
 void h_set_key(void)
 {
     MantisKey_t *ks; const void *key; unsigned size, rounds; int mode;
+#ifdef VERIF_CASE_LEN
+    size = VERIF_CASE_LEN;
+#endif
+#ifdef VERIF_CASE_INVALID
+    __CPROVER_assume(size != 16);
+#endif
     mantis_set_key(ks, key, size, rounds, mode);
     VCANARY();
 }
